@@ -59,10 +59,10 @@ func (g *vfGen) genC11() {
 	// random byte-class strings beyond the exhaustive length
 	classes := []byte{'a', ' ', '\n', 0x1B, 0x7F, 0x85, 0x90, 0xA0, 0xBF, 0xC2, 0xC3, 0xDF, 0xE0, 0xE2, 0xED, 0xEF, 0xF0, 0xF4, 0xF5, 0xFF, 0xC0, 0x80}
 	for i := 0; i < g.pick(20000, 600000); i++ {
-		n := 1 + g.rng.Intn(10)
+		n := 1 + g.intn(10)
 		b := make([]byte, n)
 		for j := range b {
-			b[j] = classes[g.rng.Intn(len(classes))]
+			b[j] = classes[g.intn(len(classes))]
 		}
 		g.emit(vfOp("cs", "plain", b))
 	}
